@@ -78,8 +78,10 @@ def _gen_scalar(rng):
         return {"t": "bool", "v": rng.random() < 0.5}
     if r < 0.72:
         return {"t": "str", "v": rng.choice(STRS)}
-    if r < 0.82:
+    if r < 0.80:
         return {"t": "cmd", "v": rng.choice(list(CMD_INFO))}
+    if r < 0.82:
+        return {"t": "cmd2", "v": rng.choice(list(CMD_INFO))}     # the command of ANOTHER program with the same result name
     if r < 0.88:
         return {"t": "type", "v": rng.choice(["float", "int", "numpy.float64", "numpy.uint", "str"])}
     if r < 0.91:
@@ -128,7 +130,9 @@ def _gen_value0(rng, param=None, depth=0):
                                                  "/sim/work_in.csv"])}
         if c == "Result":
             return rng.choice([{"t": "str", "v": rng.choice(list(CMD_INFO) + ["nosuch"])},
-                               {"t": "cmd", "v": rng.choice(list(CMD_INFO))}])
+                               {"t": "cmd", "v": rng.choice(list(CMD_INFO))},
+                               {"t": "cmd", "v": rng.choice(list(CMD_INFO))},
+                               {"t": "cmd2", "v": rng.choice(list(CMD_INFO))}])
         if c == "Tuple":
             return rng.choice([{"t": "dict", "v": {"K": "v", "n": 5}}, {"t": "list", "v": []}, {"t": "dict", "v": {}}])
         if c == "DataType":
@@ -221,6 +225,8 @@ def build_value(spec, ctx):
         return None
     if t == "cmd":
         return ctx["program"].commands[spec["v"]]
+    if t == "cmd2":
+        return ctx["program2"].commands[spec["v"]]
     if t == "type":
         return {"float": float, "int": int, "numpy.float64": numpy.float64, "numpy.uint": numpy.uint, "str": str}[spec["v"]]
     if t == "array":
@@ -247,6 +253,8 @@ def kind_of(spec):
         if v in CMD_INFO:
             return "str:result-name"
         return "str"
+    if spec["t"] == "cmd2":
+        return "cmd-of-another-program"
     return spec["t"]
 
 
@@ -447,11 +455,13 @@ def execute(sc):
     mon = ExecMonitor(log)
     with Hygiene(), fs, StdCapture(log):
         program = Program(libraries=LIBS, working_dir=sc.get("wd"))
+        program2 = Program(libraries=LIBS, working_dir=sc.get("wd"))
         for name, cmd, args, fz, out in PROGRAM:
             program.add_command(program.find_command_class(cmd), name, copy.deepcopy(args))
+            program2.add_command(program2.find_command_class(cmd), name, copy.deepcopy(args))
         mon.install(list(program.command_library.values()))
         try:
-            ctx = {"program": program, "Command": Command, "Argument": Argument, "ListArgument": ListArgument, "fs": fs,
+            ctx = {"program": program, "program2": program2, "Command": Command, "Argument": Argument, "ListArgument": ListArgument, "fs": fs,
                    "arrays": {"float": numpy.array([1.5, 2.0]), "int": numpy.array([1, 2, 3]),
                               "masked": numpy.ma.array([1.0, 2.0], mask=[False, True])}}
             params = [build_param(s, P) for s in sc["params"]]
